@@ -9,6 +9,7 @@ every path (stack content) visited is a state and every push/pop an edge.
 from __future__ import annotations
 
 import itertools
+import re
 
 from ..fixtures import add_ustring, close_ctx, new_ctx
 from ..pool import run_chunks
@@ -33,6 +34,18 @@ function e.perr(frame) local ok, v = pcall(error, "inner") return "caught" end
 function e.slow(frame) while true do end end
 function e.cpfbad(frame) return frame:callParserFunction('#expr', '1/0/2') end
 function e.parent(frame) local p = frame:getParent() return p and (p.args[1] or "-") or "noparent" end
+-- every frame method that expands something, called twice in one invocation / with the special-cased tag names
+function e.tag2(frame) return frame:extensionTag("ref", "a") .. frame:extensionTag("ref", "b") end
+function e.tagnw(frame) return frame:extensionTag("nowiki", "[[x]]") end
+function e.tagnw2(frame) return frame:extensionTag("nowiki", "a") .. frame:extensionTag("nowiki", "b") end
+function e.tagpre(frame) return frame:extensionTag("pre", "p") .. frame:extensionTag{name="ref", content="c", args={name="n"}} end
+function e.pp2(frame) return frame:preprocess("{{a|1}}") .. frame:preprocess("{{missing}}") end
+function e.et2(frame) return frame:expandTemplate{title="a", args={"1"}} .. frame:expandTemplate{title="n", args={k="2"}} end
+function e.cpf2(frame) return frame:callParserFunction("lc", "A") .. frame:callParserFunction{name="#if", args={"1", "y", "n"}} end
+function e.child(frame) local c = frame:newChild{title="T", args={"ca"}} return c:preprocess("{{a|{{{1}}}}}") .. (c.args[1] or "") end
+function e.pv(frame) return frame:newParserValue("{{a|pv}}"):expand() .. frame:newTemplateParserValue{title="a", args={"tv"}}:expand() end
+function e.getarg(frame) local a = frame:getArgument(1) return a and a:expand() or "noarg" end
+function e.pairs2(frame) local n = 0 for k, v in frame:argumentPairs() do n = n + 1 end return tostring(n) end
 return e
 """
 MOD_BAD = "local e = {} function e.f( return e"
@@ -58,12 +71,16 @@ FORMS = [
     "{{#invoke:m|ok|@}}", "{{#invoke:m|err|@}}", "{{#invoke:nomod|f}}", "{{#invoke:m|nofn}}",
     "{{#invoke:m}}", "{{#invoke:m|nested}}", "{{#invoke:m|pp}}", "{{#invoke:m|et}}",
     "{{#invoke:m|loopt}}", "{{#invoke:m|cpf}}", "{{#invoke:m|tag}}", "{{#invoke:m|perr}}",
+    "{{#invoke:m|tag2}}", "{{#invoke:m|tagnw}}", "{{#invoke:m|tagnw2}}", "{{#invoke:m|tagpre}}", "{{#invoke:m|pp2}}", "{{#invoke:m|et2}}",
+    "{{#invoke:m|cpf2}}", "{{#invoke:m|child}}", "{{#invoke:m|pv}}", "{{#invoke:m|getarg|@}}", "{{#invoke:m|pairs2|@|k=v}}",
     "{{#invoke:bad|f}}", "{{#invoke:m|cpfbad}}", "{{#ausdruck:1+}}", "{{#ausdruck:1/0/2|@}}", "{{#expr:1/0/2}}", "{{a|²=@}}",
 ]
-QUICK_FORMS = [f for i, f in enumerate(FORMS) if i % 2 == 0 or "invoke" in f]
+QUICK_FORMS = [f for i, f in enumerate(FORMS) if i % 2 == 0 or "invoke" in f or f == "{{#if:1|@|n}}"]
 SLOW_FORM = "{{#invoke:m|slow}}"
+# nested far deeper than any limit inside a parser function's argument: the recursion error is contained by the function
+DEEP_FORMS = ["{{#if:1|" + "{{{a|" * 1200 + "x" + "}}}" * 1200 + "}}", "{{#ifeq:" + "{{{a|" * 1100 + "x" + "}}}" * 1100 + "|x|y|n}} {{a|1}}"]
 
-HOOKS = ("none", "tf_none", "tf_mark", "ptf_none", "ptf_mark")
+HOOKS = ("none", "tf_none", "tf_mark", "ptf_none", "ptf_mark", "tf_raise", "ptf_raise")
 
 
 def option_sets():
@@ -123,6 +140,13 @@ def _hooks(name):
         ptf = lambda n, a, t: None  # noqa: E731
     elif name == "ptf_mark":
         ptf = lambda n, a, t: "P[" + n + "]"  # noqa: E731
+    # a failing user hook: where the library contains the failure (inside a parser function's arguments) the call returns
+    elif name == "tf_raise":
+        def tf(n, a):
+            raise ValueError("hook failed")
+    elif name == "ptf_raise":
+        def ptf(n, a, t):
+            raise KeyError("hook failed")
     return tf, ptf
 
 
@@ -189,6 +213,8 @@ def run_case(ctx, case, graph=None):
             out.append(("stack_restored", {"after_call": i + 1, "stack": list(ctx.expand_stack)[:12],
                                            "len": len(ctx.expand_stack)}, before))
             break
+        # strip markers carry a per-page serial number by design: compare modulo the number
+        res = re.sub(r"(UNIQ--\w+-)[0-9A-Fa-f]{8}(-QINU)", r"\1N\2", res) if isinstance(res, str) else res
         if first is None:
             first = res
         elif res != first:
@@ -209,7 +235,7 @@ def run_case(ctx, case, graph=None):
         except Exception as e:
             raised = type(e).__name__
         check_messages(ctx, title, None, None, out)
-    if maxdepth[0] > 110:
+    if maxdepth[0] > 110 and page.count("{{{a|") < 100:   # (a page that is itself nested deeper than the limit is exempt)
         out.append(("depth_bound", maxdepth[0], "<= 110"))
     ctx.start_page(title)
     for name in LISTS:
@@ -264,6 +290,10 @@ def build_cases(tier):
         for o in opts:
             if o["hook"] in ("none", "tf_mark"):
                 cases.append({"page": p, "opts": o, "reps": reps, "section": "Sec", "subsection": "Sub"})
+    for p in DEEP_FORMS:
+        for o in opts:
+            if o["hook"] == "none" and (o["mode"] == "parse" or (o["expand_parserfns"] and o["expand_invoke"])):
+                cases.append({"page": p, "opts": o, "reps": 3})
     # restart slice: page with section/subsection, then the same title started again without them
     for f in FORMS + ["<i>x\n<b>y", "{{missing}}<foo>"]:
         p = f.replace("@", "z")
